@@ -4,8 +4,9 @@
     Model/Validate.v      the independent validator (layer 1 [inv_errors], layer 3 [object_errors])
     Model/ValidateSpec.v  the MUST clauses about one inventory, declaratively ([InvSpecOK])
     Model/JsonValue.v     JSON values, parser, printer
-    Model/KnownC07.v      classifier of the known finding (escaped strings at borrowed positions) *)
-From Rocfl Require Import Base.Bytes Model.Json Model.JsonValue Model.Validate Model.ValidateSpec Model.KnownC07
+    Model/ValidateReader.v rocfl validate's reader of string tokens (now, and before fix 2f36fc5)
+    No known-finding class is left for this property. *)
+From Rocfl Require Import Base.Bytes Model.Json Model.JsonValue Model.Validate Model.ValidateSpec Model.ValidateReader
   Proofs.JsonFacts Proofs.JsonValueFacts Proofs.ValidateSound Proofs.ValidatePerm Proofs.ValidateMain.
 From Coq Require Import Permutation.
 Open Scope N_scope.
@@ -93,22 +94,32 @@ Theorem C07_parse_fuel_monotone : forall f f' s r,
 Proof. exact parse_fuel_mono. Qed.
 Print Assumptions C07_parse_fuel_monotone.
 
-(** * the known finding at string level: outside the class rocfl's reader is the conforming decoder,
-      inside it refuses a legal spelling *)
-Theorem C07_reader_agrees_outside_class : forall p t,
-  (val_pos_borrowed p && has_escape t) = false -> validator_read_pos p t = decode_string t.
-Proof. exact reader_agrees_outside_class. Qed.
-Print Assumptions C07_reader_agrees_outside_class.
+(** * rocfl validate's reader of string tokens (src/ocfl/validate/serde.rs after 2f36fc5: Cow<str> / String
+      at every position): unconditionally, every legal spelling of a string is read as that string *)
+Theorem C07_validator_reads_every_spelling : forall t s,
+  spells t s -> utf8_valid s = true -> validator_read (DQ :: t ++ [DQ]) = Some s.
+Proof. exact validator_reads_every_spelling. Qed.
+Print Assumptions C07_validator_reads_every_spelling.
 
-Theorem C07_reader_rejects_inside_class : forall p t,
-  val_pos_borrowed p = true -> has_escape t = true -> validator_read_pos p t = None.
-Proof. exact reader_rejects_inside_class. Qed.
-Print Assumptions C07_reader_rejects_inside_class.
+Theorem C07_validator_reads_serde_escape : forall s, utf8_valid s = true -> validator_read (serde_escape s) = Some s.
+Proof. exact validator_reads_serde_escape. Qed.
+Print Assumptions C07_validator_reads_serde_escape.
 
-Theorem C07_known_escape_refuted :
-  exists p t s, decode_string t = Some s /\ utf8_valid s = true /\ validator_read_pos p t = None.
-Proof. exact reader_refuted. Qed.
-Print Assumptions C07_known_escape_refuted.
+Theorem C07_validator_read_conforming : forall t, validator_read t = decode_string t.
+Proof. exact validator_read_conforming. Qed.
+Print Assumptions C07_validator_read_conforming.
+
+(** historical note about the separate definition [validator_read_before_fix] (borrowed &str):
+    it refused every token with a backslash, so it violated the statement above *)
+Theorem C07_validator_read_before_fix_refused : forall t, has_escape t = true -> validator_read_before_fix t = None.
+Proof. exact validator_read_before_fix_refused. Qed.
+Print Assumptions C07_validator_read_before_fix_refused.
+
+Theorem C07_validator_read_before_fix_witness :
+  exists t s, spells t s /\ utf8_valid s = true /\ validator_read (DQ :: t ++ [DQ]) = Some s
+              /\ validator_read_before_fix (DQ :: t ++ [DQ]) = None.
+Proof. exact validator_read_before_fix_witness. Qed.
+Print Assumptions C07_validator_read_before_fix_witness.
 
 (** * non-vacuity: official fixtures, byte for byte *)
 
@@ -200,9 +211,9 @@ Definition fx_minimal_escaped : bytes := (b "{
 }
 ").
 (** the object root official-1.0/valid/minimal_one_version_one_file as a listing *)
-Definition fx_minimal_object : node := (NDir [((b "0=ocfl_object_1.0"), (NFile [(b "sha256", b "e0686361e5d0d02978ad76da661b0d11f589870bf2651ab35a2f3ac2c0782e4a"); (b "sha512", b "f2d82d5b8ef10ca997fcadf894ee14e9183386256c723816813113f0bc1c161f0b63eb83144806cbd85e484ec36a6b6bc5812b0b6fd8ac91e2a08373b8c9d564")] (Some ((b "ocfl_object_1.0") ++ (bs [10]))))); ((b "inventory.json"), (NFile [(b "sha256", b "90f3711b22af60c56ac1f65a58df4ae982428dfce8385074a3e710d71994a970"); (b "sha512", b "f889cd4ba8cfd5b52c5f8c9ca99cb404586e60ee5d5b9b5508338f296776bf613719175253d9027c7e166ede7182785889b5ca59e19e441e47cde56b5bc20949")] (Some ((b "{") ++ (bs [10]) ++ (b "  ""digestAlgorithm"": ""sha512"",") ++ (bs [10]) ++ (b "  ""head"": ""v1"",") ++ (bs [10]) ++ (b "  ""id"": ""ark:123/abc"",") ++ (bs [10]) ++ (b "  ""manifest"": {") ++ (bs [10]) ++ (b "    ""43a43fe8a8a082d3b5343dfaf2fd0c8b8e370675b1f376e92e9994612c33ea255b11298269d72f797399ebb94edeefe53df243643676548f584fb8603ca53a0f"": [") ++ (bs [10]) ++ (b "      ""v1/content/a_file.txt""") ++ (bs [10]) ++ (b "    ]") ++ (bs [10]) ++ (b "  },") ++ (bs [10]) ++ (b "  ""type"": ""https://ocfl.io/1.0/spec/#inventory"",") ++ (bs [10]) ++ (b "  ""versions"": {") ++ (bs [10]) ++ (b "    ""v1"": {") ++ (bs [10]) ++ (b "      ""created"": ""2019-01-01T02:03:04Z"",") ++ (bs [10]) ++ (b "      ""message"": ""An version with one file"",") ++ (bs [10]) ++ (b "      ""state"": {") ++ (bs [10]) ++ (b "        ""43a43fe8a8a082d3b5343dfaf2fd0c8b8e370675b1f376e92e9994612c33ea255b11298269d72f797399ebb94edeefe53df243643676548f584fb8603ca53a0f"": [") ++ (bs [10]) ++ (b "          ""a_file.txt""") ++ (bs [10]) ++ (b "        ]") ++ (bs [10]) ++ (b "      },") ++ (bs [10]) ++ (b "      ""user"": {") ++ (bs [10]) ++ (b "        ""address"": ""mailto:a_person@example.org"",") ++ (bs [10]) ++ (b "        ""name"": ""A Person""") ++ (bs [10]) ++ (b "      }") ++ (bs [10]) ++ (b "    }") ++ (bs [10]) ++ (b "  }") ++ (bs [10]) ++ (b "}") ++ (bs [10]))))); ((b "inventory.json.sha512"), (NFile [(b "sha256", b "bc8fde8b975427f912858142640e81416867286d48fdddee51777603578d1e0b"); (b "sha512", b "479e2863c3e5e67a87d1694be24a2f9446fa577bff53797ab85c978c752c4f6dbc0227782e7b6dbb89bba7253f99b6d4956ef75180077b1d92229fecdf2a7587")] (Some ((b "f889cd4ba8cfd5b52c5f8c9ca99cb404586e60ee5d5b9b5508338f296776bf613719175253d9027c7e166ede7182785889b5ca59e19e441e47cde56b5bc20949 inventory.json") ++ (bs [10]))))); ((b "v1"), (NDir [((b "content"), (NDir [((b "a_file.txt"), (NFile [(b "sha256", b "af9a8763eac0ff815ff634c65f9d82374a0659a86290338b6dc45960e393a3c9"); (b "sha512", b "43a43fe8a8a082d3b5343dfaf2fd0c8b8e370675b1f376e92e9994612c33ea255b11298269d72f797399ebb94edeefe53df243643676548f584fb8603ca53a0f")] None))])); ((b "inventory.json"), (NFile [(b "sha256", b "90f3711b22af60c56ac1f65a58df4ae982428dfce8385074a3e710d71994a970"); (b "sha512", b "f889cd4ba8cfd5b52c5f8c9ca99cb404586e60ee5d5b9b5508338f296776bf613719175253d9027c7e166ede7182785889b5ca59e19e441e47cde56b5bc20949")] (Some ((b "{") ++ (bs [10]) ++ (b "  ""digestAlgorithm"": ""sha512"",") ++ (bs [10]) ++ (b "  ""head"": ""v1"",") ++ (bs [10]) ++ (b "  ""id"": ""ark:123/abc"",") ++ (bs [10]) ++ (b "  ""manifest"": {") ++ (bs [10]) ++ (b "    ""43a43fe8a8a082d3b5343dfaf2fd0c8b8e370675b1f376e92e9994612c33ea255b11298269d72f797399ebb94edeefe53df243643676548f584fb8603ca53a0f"": [") ++ (bs [10]) ++ (b "      ""v1/content/a_file.txt""") ++ (bs [10]) ++ (b "    ]") ++ (bs [10]) ++ (b "  },") ++ (bs [10]) ++ (b "  ""type"": ""https://ocfl.io/1.0/spec/#inventory"",") ++ (bs [10]) ++ (b "  ""versions"": {") ++ (bs [10]) ++ (b "    ""v1"": {") ++ (bs [10]) ++ (b "      ""created"": ""2019-01-01T02:03:04Z"",") ++ (bs [10]) ++ (b "      ""message"": ""An version with one file"",") ++ (bs [10]) ++ (b "      ""state"": {") ++ (bs [10]) ++ (b "        ""43a43fe8a8a082d3b5343dfaf2fd0c8b8e370675b1f376e92e9994612c33ea255b11298269d72f797399ebb94edeefe53df243643676548f584fb8603ca53a0f"": [") ++ (bs [10]) ++ (b "          ""a_file.txt""") ++ (bs [10]) ++ (b "        ]") ++ (bs [10]) ++ (b "      },") ++ (bs [10]) ++ (b "      ""user"": {") ++ (bs [10]) ++ (b "        ""address"": ""mailto:a_person@example.org"",") ++ (bs [10]) ++ (b "        ""name"": ""A Person""") ++ (bs [10]) ++ (b "      }") ++ (bs [10]) ++ (b "    }") ++ (bs [10]) ++ (b "  }") ++ (bs [10]) ++ (b "}") ++ (bs [10]))))); ((b "inventory.json.sha512"), (NFile [(b "sha256", b "bc8fde8b975427f912858142640e81416867286d48fdddee51777603578d1e0b"); (b "sha512", b "479e2863c3e5e67a87d1694be24a2f9446fa577bff53797ab85c978c752c4f6dbc0227782e7b6dbb89bba7253f99b6d4956ef75180077b1d92229fecdf2a7587")] (Some ((b "f889cd4ba8cfd5b52c5f8c9ca99cb404586e60ee5d5b9b5508338f296776bf613719175253d9027c7e166ede7182785889b5ca59e19e441e47cde56b5bc20949 inventory.json") ++ (bs [10])))))]))]).
+Definition fx_minimal_object : node := (NDir [((b "0=ocfl_object_1.0"), (NFile [(b "sha256", b "e0686361e5d0d02978ad76da661b0d11f589870bf2651ab35a2f3ac2c0782e4a"); (b "sha512", b "f2d82d5b8ef10ca997fcadf894ee14e9183386256c723816813113f0bc1c161f0b63eb83144806cbd85e484ec36a6b6bc5812b0b6fd8ac91e2a08373b8c9d564")] (Some ((b "ocfl_object_1.0") ++ (bs [10]))))); ((b "inventory.json"), (NFile [(b "sha256", b "90f3711b22af60c56ac1f65a58df4ae982428dfce8385074a3e710d71994a970"); (b "sha512", b "f889cd4ba8cfd5b52c5f8c9ca99cb404586e60ee5d5b9b5508338f296776bf613719175253d9027c7e166ede7182785889b5ca59e19e441e47cde56b5bc20949")] (Some (((((((b "{") ++ (bs [10])) ++ ((b "  ""digestAlgorithm"": ""sha512"",") ++ (bs [10]))) ++ (((b "  ""head"": ""v1"",") ++ (bs [10])) ++ ((b "  ""id"": ""ark:123/abc"",") ++ (bs [10])))) ++ ((((b "  ""manifest"": {") ++ (bs [10])) ++ ((b "    ""43a43fe8a8a082d3b5343dfaf2fd0c8b8e370675b1f376e92e9994612c33ea255b11298269d72f797399ebb94edeefe53df243643676548f584fb8603ca53a0f"": [") ++ (bs [10]))) ++ (((b "      ""v1/content/a_file.txt""") ++ (bs [10])) ++ ((b "    ]") ++ (bs [10]))))) ++ (((((b "  },") ++ (bs [10])) ++ ((b "  ""type"": ""https://ocfl.io/1.0/spec/#inventory"",") ++ (bs [10]))) ++ (((b "  ""versions"": {") ++ (bs [10])) ++ ((b "    ""v1"": {") ++ (bs [10])))) ++ ((((b "      ""created"": ""2019-01-01T02:03:04Z"",") ++ (bs [10])) ++ ((b "      ""message"": ""An version with one file"",") ++ (bs [10]))) ++ (((b "      ""state"": {") ++ (bs [10])) ++ ((b "        ""43a43fe8a8a082d3b5343dfaf2fd0c8b8e370675b1f376e92e9994612c33ea255b11298269d72f797399ebb94edeefe53df243643676548f584fb8603ca53a0f"": [") ++ (bs [10])))))) ++ ((((((b "          ""a_file.txt""") ++ (bs [10])) ++ ((b "        ]") ++ (bs [10]))) ++ (((b "      },") ++ (bs [10])) ++ ((b "      ""user"": {") ++ (bs [10])))) ++ ((((b "        ""address"": ""mailto:a_person@example.org"",") ++ (bs [10])) ++ ((b "        ""name"": ""A Person""") ++ (bs [10]))) ++ (((b "      }") ++ (bs [10])) ++ ((b "    }") ++ (bs [10]))))) ++ (((b "  }") ++ (bs [10])) ++ ((b "}") ++ (bs [10])))))))); ((b "inventory.json.sha512"), (NFile [(b "sha256", b "bc8fde8b975427f912858142640e81416867286d48fdddee51777603578d1e0b"); (b "sha512", b "479e2863c3e5e67a87d1694be24a2f9446fa577bff53797ab85c978c752c4f6dbc0227782e7b6dbb89bba7253f99b6d4956ef75180077b1d92229fecdf2a7587")] (Some ((b "f889cd4ba8cfd5b52c5f8c9ca99cb404586e60ee5d5b9b5508338f296776bf613719175253d9027c7e166ede7182785889b5ca59e19e441e47cde56b5bc20949 inventory.json") ++ (bs [10]))))); ((b "v1"), (NDir [((b "content"), (NDir [((b "a_file.txt"), (NFile [(b "sha256", b "af9a8763eac0ff815ff634c65f9d82374a0659a86290338b6dc45960e393a3c9"); (b "sha512", b "43a43fe8a8a082d3b5343dfaf2fd0c8b8e370675b1f376e92e9994612c33ea255b11298269d72f797399ebb94edeefe53df243643676548f584fb8603ca53a0f")] None))])); ((b "inventory.json"), (NFile [(b "sha256", b "90f3711b22af60c56ac1f65a58df4ae982428dfce8385074a3e710d71994a970"); (b "sha512", b "f889cd4ba8cfd5b52c5f8c9ca99cb404586e60ee5d5b9b5508338f296776bf613719175253d9027c7e166ede7182785889b5ca59e19e441e47cde56b5bc20949")] (Some (((((((b "{") ++ (bs [10])) ++ ((b "  ""digestAlgorithm"": ""sha512"",") ++ (bs [10]))) ++ (((b "  ""head"": ""v1"",") ++ (bs [10])) ++ ((b "  ""id"": ""ark:123/abc"",") ++ (bs [10])))) ++ ((((b "  ""manifest"": {") ++ (bs [10])) ++ ((b "    ""43a43fe8a8a082d3b5343dfaf2fd0c8b8e370675b1f376e92e9994612c33ea255b11298269d72f797399ebb94edeefe53df243643676548f584fb8603ca53a0f"": [") ++ (bs [10]))) ++ (((b "      ""v1/content/a_file.txt""") ++ (bs [10])) ++ ((b "    ]") ++ (bs [10]))))) ++ (((((b "  },") ++ (bs [10])) ++ ((b "  ""type"": ""https://ocfl.io/1.0/spec/#inventory"",") ++ (bs [10]))) ++ (((b "  ""versions"": {") ++ (bs [10])) ++ ((b "    ""v1"": {") ++ (bs [10])))) ++ ((((b "      ""created"": ""2019-01-01T02:03:04Z"",") ++ (bs [10])) ++ ((b "      ""message"": ""An version with one file"",") ++ (bs [10]))) ++ (((b "      ""state"": {") ++ (bs [10])) ++ ((b "        ""43a43fe8a8a082d3b5343dfaf2fd0c8b8e370675b1f376e92e9994612c33ea255b11298269d72f797399ebb94edeefe53df243643676548f584fb8603ca53a0f"": [") ++ (bs [10])))))) ++ ((((((b "          ""a_file.txt""") ++ (bs [10])) ++ ((b "        ]") ++ (bs [10]))) ++ (((b "      },") ++ (bs [10])) ++ ((b "      ""user"": {") ++ (bs [10])))) ++ ((((b "        ""address"": ""mailto:a_person@example.org"",") ++ (bs [10])) ++ ((b "        ""name"": ""A Person""") ++ (bs [10]))) ++ (((b "      }") ++ (bs [10])) ++ ((b "    }") ++ (bs [10]))))) ++ (((b "  }") ++ (bs [10])) ++ ((b "}") ++ (bs [10])))))))); ((b "inventory.json.sha512"), (NFile [(b "sha256", b "bc8fde8b975427f912858142640e81416867286d48fdddee51777603578d1e0b"); (b "sha512", b "479e2863c3e5e67a87d1694be24a2f9446fa577bff53797ab85c978c752c4f6dbc0227782e7b6dbb89bba7253f99b6d4956ef75180077b1d92229fecdf2a7587")] (Some ((b "f889cd4ba8cfd5b52c5f8c9ca99cb404586e60ee5d5b9b5508338f296776bf613719175253d9027c7e166ede7182785889b5ca59e19e441e47cde56b5bc20949 inventory.json") ++ (bs [10])))))]))]).
 (** official-1.0/error/E023_extra_file *)
-Definition fx_extra_file_object : node := (NDir [((b "0=ocfl_object_1.0"), (NFile [(b "sha256", b "e0686361e5d0d02978ad76da661b0d11f589870bf2651ab35a2f3ac2c0782e4a"); (b "sha512", b "f2d82d5b8ef10ca997fcadf894ee14e9183386256c723816813113f0bc1c161f0b63eb83144806cbd85e484ec36a6b6bc5812b0b6fd8ac91e2a08373b8c9d564")] (Some ((b "ocfl_object_1.0") ++ (bs [10]))))); ((b "inventory.json"), (NFile [(b "sha256", b "c1516d52a6bb5f7fee6a6807a54e421a02f5989a601c44f9cfbd76d91d093b6c"); (b "sha512", b "2dc052dae21c0557782a0d669ed759b623c63ba5c40da90d821f258d7ff614bdce572783a5e424bedd1d9d46d904ecb381f40ec26a0df01e91169177744438d4")] (Some ((b "{") ++ (bs [10]) ++ (b "    ""digestAlgorithm"": ""sha512"",") ++ (bs [10]) ++ (b "    ""head"": ""v1"",") ++ (bs [10]) ++ (b "    ""id"": ""info:bad05"",") ++ (bs [10]) ++ (b "    ""manifest"": {") ++ (bs [10; 9]) ++ (b """e7c22b994c59d9cf2b48e549b1e24666636045930d3da7c1acb299d1c3b7f931f94aae41edda2c2b207a36e10f8bcb8d45223e54878f5b316e7ce3b6bc019629"": [") ++ (bs [10; 9]) ++ (b "    ""v1/content/file.txt""") ++ (bs [10]) ++ (b "        ]") ++ (bs [10]) ++ (b "    },") ++ (bs [10]) ++ (b "    ""type"": ""https://ocfl.io/1.0/spec/#inventory"",") ++ (bs [10]) ++ (b "    ""versions"": {") ++ (bs [10; 9]) ++ (b """v1"": {") ++ (bs [10; 9]) ++ (b "    ""created"": ""2018-10-31T12:54:57.688459Z"",") ++ (bs [10; 9]) ++ (b "    ""message"": """",") ++ (bs [10; 9]) ++ (b "    ""state"": {") ++ (bs [10; 9; 9]) ++ (b """e7c22b994c59d9cf2b48e549b1e24666636045930d3da7c1acb299d1c3b7f931f94aae41edda2c2b207a36e10f8bcb8d45223e54878f5b316e7ce3b6bc019629"": [") ++ (bs [10; 9; 9]) ++ (b "    ""file.txt""") ++ (bs [10]) ++ (b "                ]") ++ (bs [10; 9]) ++ (b "    },") ++ (bs [10; 9]) ++ (b "    ""user"": {") ++ (bs [10; 9; 9]) ++ (b """address"": ""somewhere"",") ++ (bs [10; 9; 9]) ++ (b """name"": ""someone""") ++ (bs [10; 9]) ++ (b "    }") ++ (bs [10; 9]) ++ (b "}") ++ (bs [10]) ++ (b "    }") ++ (bs [10]) ++ (b "}") ++ (bs [10]))))); ((b "inventory.json.sha512"), (NFile [(b "sha256", b "aac7770db2160704e51177864b623cb05c7606b0fb228f69e9fa7b7c4b2adaa4"); (b "sha512", b "7a1ea838e897395fd54f01ea03145a241065827e3802408be04071ed735880a506cedfbd79d7358cca33650e4c936e5bfd1f7c336e265f0b2fe66c94977b7e04")] (Some ((b "2dc052dae21c0557782a0d669ed759b623c63ba5c40da90d821f258d7ff614bdce572783a5e424bedd1d9d46d904ecb381f40ec26a0df01e91169177744438d4  inventory.json") ++ (bs [10]))))); ((b "v1"), (NDir [((b "content"), (NDir [((b "file.txt"), (NFile [(b "sha256", b "5891b5b522d5df086d0ff0b110fbd9d21bb4fc7163af34d08286a2e846f6be03"); (b "sha512", b "e7c22b994c59d9cf2b48e549b1e24666636045930d3da7c1acb299d1c3b7f931f94aae41edda2c2b207a36e10f8bcb8d45223e54878f5b316e7ce3b6bc019629")] None)); ((b "file2.txt"), (NFile [(b "sha256", b "d9a4c6676a62cb3b8ca0b8459ab341837cdba8543316c8574b454ccc24d4c690"); (b "sha512", b "dfe9a0bbfdaab7173036571a1d9e34e2465b1e3a52e8b707bbf6dea9239a9a55b0fc9e511fc24882d7f493cd950a9dbef1de13e08a007909b21cd5ba54dc4888")] None))])); ((b "inventory.json"), (NFile [(b "sha256", b "c1516d52a6bb5f7fee6a6807a54e421a02f5989a601c44f9cfbd76d91d093b6c"); (b "sha512", b "2dc052dae21c0557782a0d669ed759b623c63ba5c40da90d821f258d7ff614bdce572783a5e424bedd1d9d46d904ecb381f40ec26a0df01e91169177744438d4")] (Some ((b "{") ++ (bs [10]) ++ (b "    ""digestAlgorithm"": ""sha512"",") ++ (bs [10]) ++ (b "    ""head"": ""v1"",") ++ (bs [10]) ++ (b "    ""id"": ""info:bad05"",") ++ (bs [10]) ++ (b "    ""manifest"": {") ++ (bs [10; 9]) ++ (b """e7c22b994c59d9cf2b48e549b1e24666636045930d3da7c1acb299d1c3b7f931f94aae41edda2c2b207a36e10f8bcb8d45223e54878f5b316e7ce3b6bc019629"": [") ++ (bs [10; 9]) ++ (b "    ""v1/content/file.txt""") ++ (bs [10]) ++ (b "        ]") ++ (bs [10]) ++ (b "    },") ++ (bs [10]) ++ (b "    ""type"": ""https://ocfl.io/1.0/spec/#inventory"",") ++ (bs [10]) ++ (b "    ""versions"": {") ++ (bs [10; 9]) ++ (b """v1"": {") ++ (bs [10; 9]) ++ (b "    ""created"": ""2018-10-31T12:54:57.688459Z"",") ++ (bs [10; 9]) ++ (b "    ""message"": """",") ++ (bs [10; 9]) ++ (b "    ""state"": {") ++ (bs [10; 9; 9]) ++ (b """e7c22b994c59d9cf2b48e549b1e24666636045930d3da7c1acb299d1c3b7f931f94aae41edda2c2b207a36e10f8bcb8d45223e54878f5b316e7ce3b6bc019629"": [") ++ (bs [10; 9; 9]) ++ (b "    ""file.txt""") ++ (bs [10]) ++ (b "                ]") ++ (bs [10; 9]) ++ (b "    },") ++ (bs [10; 9]) ++ (b "    ""user"": {") ++ (bs [10; 9; 9]) ++ (b """address"": ""somewhere"",") ++ (bs [10; 9; 9]) ++ (b """name"": ""someone""") ++ (bs [10; 9]) ++ (b "    }") ++ (bs [10; 9]) ++ (b "}") ++ (bs [10]) ++ (b "    }") ++ (bs [10]) ++ (b "}") ++ (bs [10]))))); ((b "inventory.json.sha512"), (NFile [(b "sha256", b "aac7770db2160704e51177864b623cb05c7606b0fb228f69e9fa7b7c4b2adaa4"); (b "sha512", b "7a1ea838e897395fd54f01ea03145a241065827e3802408be04071ed735880a506cedfbd79d7358cca33650e4c936e5bfd1f7c336e265f0b2fe66c94977b7e04")] (Some ((b "2dc052dae21c0557782a0d669ed759b623c63ba5c40da90d821f258d7ff614bdce572783a5e424bedd1d9d46d904ecb381f40ec26a0df01e91169177744438d4  inventory.json") ++ (bs [10])))))]))]).
+Definition fx_extra_file_object : node := (NDir [((b "0=ocfl_object_1.0"), (NFile [(b "sha256", b "e0686361e5d0d02978ad76da661b0d11f589870bf2651ab35a2f3ac2c0782e4a"); (b "sha512", b "f2d82d5b8ef10ca997fcadf894ee14e9183386256c723816813113f0bc1c161f0b63eb83144806cbd85e484ec36a6b6bc5812b0b6fd8ac91e2a08373b8c9d564")] (Some ((b "ocfl_object_1.0") ++ (bs [10]))))); ((b "inventory.json"), (NFile [(b "sha256", b "c1516d52a6bb5f7fee6a6807a54e421a02f5989a601c44f9cfbd76d91d093b6c"); (b "sha512", b "2dc052dae21c0557782a0d669ed759b623c63ba5c40da90d821f258d7ff614bdce572783a5e424bedd1d9d46d904ecb381f40ec26a0df01e91169177744438d4")] (Some (((((((b "{") ++ (bs [10])) ++ ((b "    ""digestAlgorithm"": ""sha512"",") ++ (bs [10]))) ++ (((b "    ""head"": ""v1"",") ++ (bs [10])) ++ ((b "    ""id"": ""info:bad05"",") ++ (bs [10])))) ++ ((((b "    ""manifest"": {") ++ (bs [10; 9])) ++ ((b """e7c22b994c59d9cf2b48e549b1e24666636045930d3da7c1acb299d1c3b7f931f94aae41edda2c2b207a36e10f8bcb8d45223e54878f5b316e7ce3b6bc019629"": [") ++ (bs [10; 9]))) ++ (((b "    ""v1/content/file.txt""") ++ (bs [10])) ++ ((b "        ]") ++ (bs [10]))))) ++ (((((b "    },") ++ (bs [10])) ++ ((b "    ""type"": ""https://ocfl.io/1.0/spec/#inventory"",") ++ (bs [10]))) ++ (((b "    ""versions"": {") ++ (bs [10; 9])) ++ ((b """v1"": {") ++ (bs [10; 9])))) ++ ((((b "    ""created"": ""2018-10-31T12:54:57.688459Z"",") ++ (bs [10; 9])) ++ ((b "    ""message"": """",") ++ (bs [10; 9]))) ++ (((b "    ""state"": {") ++ (bs [10; 9; 9])) ++ ((b """e7c22b994c59d9cf2b48e549b1e24666636045930d3da7c1acb299d1c3b7f931f94aae41edda2c2b207a36e10f8bcb8d45223e54878f5b316e7ce3b6bc019629"": [") ++ (bs [10; 9; 9])))))) ++ ((((((b "    ""file.txt""") ++ (bs [10])) ++ ((b "                ]") ++ (bs [10; 9]))) ++ (((b "    },") ++ (bs [10; 9])) ++ ((b "    ""user"": {") ++ (bs [10; 9; 9])))) ++ ((((b """address"": ""somewhere"",") ++ (bs [10; 9; 9])) ++ ((b """name"": ""someone""") ++ (bs [10; 9]))) ++ (((b "    }") ++ (bs [10; 9])) ++ ((b "}") ++ (bs [10]))))) ++ (((b "    }") ++ (bs [10])) ++ ((b "}") ++ (bs [10])))))))); ((b "inventory.json.sha512"), (NFile [(b "sha256", b "aac7770db2160704e51177864b623cb05c7606b0fb228f69e9fa7b7c4b2adaa4"); (b "sha512", b "7a1ea838e897395fd54f01ea03145a241065827e3802408be04071ed735880a506cedfbd79d7358cca33650e4c936e5bfd1f7c336e265f0b2fe66c94977b7e04")] (Some ((b "2dc052dae21c0557782a0d669ed759b623c63ba5c40da90d821f258d7ff614bdce572783a5e424bedd1d9d46d904ecb381f40ec26a0df01e91169177744438d4  inventory.json") ++ (bs [10]))))); ((b "v1"), (NDir [((b "content"), (NDir [((b "file.txt"), (NFile [(b "sha256", b "5891b5b522d5df086d0ff0b110fbd9d21bb4fc7163af34d08286a2e846f6be03"); (b "sha512", b "e7c22b994c59d9cf2b48e549b1e24666636045930d3da7c1acb299d1c3b7f931f94aae41edda2c2b207a36e10f8bcb8d45223e54878f5b316e7ce3b6bc019629")] None)); ((b "file2.txt"), (NFile [(b "sha256", b "d9a4c6676a62cb3b8ca0b8459ab341837cdba8543316c8574b454ccc24d4c690"); (b "sha512", b "dfe9a0bbfdaab7173036571a1d9e34e2465b1e3a52e8b707bbf6dea9239a9a55b0fc9e511fc24882d7f493cd950a9dbef1de13e08a007909b21cd5ba54dc4888")] None))])); ((b "inventory.json"), (NFile [(b "sha256", b "c1516d52a6bb5f7fee6a6807a54e421a02f5989a601c44f9cfbd76d91d093b6c"); (b "sha512", b "2dc052dae21c0557782a0d669ed759b623c63ba5c40da90d821f258d7ff614bdce572783a5e424bedd1d9d46d904ecb381f40ec26a0df01e91169177744438d4")] (Some (((((((b "{") ++ (bs [10])) ++ ((b "    ""digestAlgorithm"": ""sha512"",") ++ (bs [10]))) ++ (((b "    ""head"": ""v1"",") ++ (bs [10])) ++ ((b "    ""id"": ""info:bad05"",") ++ (bs [10])))) ++ ((((b "    ""manifest"": {") ++ (bs [10; 9])) ++ ((b """e7c22b994c59d9cf2b48e549b1e24666636045930d3da7c1acb299d1c3b7f931f94aae41edda2c2b207a36e10f8bcb8d45223e54878f5b316e7ce3b6bc019629"": [") ++ (bs [10; 9]))) ++ (((b "    ""v1/content/file.txt""") ++ (bs [10])) ++ ((b "        ]") ++ (bs [10]))))) ++ (((((b "    },") ++ (bs [10])) ++ ((b "    ""type"": ""https://ocfl.io/1.0/spec/#inventory"",") ++ (bs [10]))) ++ (((b "    ""versions"": {") ++ (bs [10; 9])) ++ ((b """v1"": {") ++ (bs [10; 9])))) ++ ((((b "    ""created"": ""2018-10-31T12:54:57.688459Z"",") ++ (bs [10; 9])) ++ ((b "    ""message"": """",") ++ (bs [10; 9]))) ++ (((b "    ""state"": {") ++ (bs [10; 9; 9])) ++ ((b """e7c22b994c59d9cf2b48e549b1e24666636045930d3da7c1acb299d1c3b7f931f94aae41edda2c2b207a36e10f8bcb8d45223e54878f5b316e7ce3b6bc019629"": [") ++ (bs [10; 9; 9])))))) ++ ((((((b "    ""file.txt""") ++ (bs [10])) ++ ((b "                ]") ++ (bs [10; 9]))) ++ (((b "    },") ++ (bs [10; 9])) ++ ((b "    ""user"": {") ++ (bs [10; 9; 9])))) ++ ((((b """address"": ""somewhere"",") ++ (bs [10; 9; 9])) ++ ((b """name"": ""someone""") ++ (bs [10; 9]))) ++ (((b "    }") ++ (bs [10; 9])) ++ ((b "}") ++ (bs [10]))))) ++ (((b "    }") ++ (bs [10])) ++ ((b "}") ++ (bs [10])))))))); ((b "inventory.json.sha512"), (NFile [(b "sha256", b "aac7770db2160704e51177864b623cb05c7606b0fb228f69e9fa7b7c4b2adaa4"); (b "sha512", b "7a1ea838e897395fd54f01ea03145a241065827e3802408be04071ed735880a506cedfbd79d7358cca33650e4c936e5bfd1f7c336e265f0b2fe66c94977b7e04")] (Some ((b "2dc052dae21c0557782a0d669ed759b623c63ba5c40da90d821f258d7ff614bdce572783a5e424bedd1d9d46d904ecb381f40ec26a0df01e91169177744438d4  inventory.json") ++ (bs [10])))))]))]).
 
 Example C07_fixture_valid : inv_errors_bytes V10 fx_minimal = [].
 Proof. vm_compute. reflexivity. Qed.
@@ -227,11 +238,11 @@ Proof. vm_compute. split; reflexivity. Qed.
 Example C07_fixture_object_invalid : object_errors true fx_extra_file_object = [23].
 Proof. vm_compute. reflexivity. Qed.
 
-(** the escaped spelling has the same value, is valid for the independent validator, and lies in the known class *)
+(** the escaped spelling is a different text with the same value and the same (empty) error list *)
 Example C07_escaped_same_document :
-  parse_json fx_minimal_escaped = parse_json fx_minimal /\ inv_errors_bytes V10 fx_minimal_escaped = []
-  /\ c07_escaped_string fx_minimal_escaped = true /\ c07_escaped_string fx_minimal = false.
-Proof. vm_compute. repeat split. Qed.
+  fx_minimal_escaped <> fx_minimal /\ parse_json fx_minimal_escaped = parse_json fx_minimal
+  /\ inv_errors_bytes V10 fx_minimal_escaped = [].
+Proof. split; [intros H; vm_compute in H; discriminate H | vm_compute; split; reflexivity]. Qed.
 
 Example C07_key_order_nonvacuous :
   jv_perm (JObj [(b "a", JStr (b "1")); (b "b", JObj [(b "x", JNull); (b "y", JNull)])])
